@@ -21,7 +21,7 @@ ValueFails(prefix, got, want) ==
 
 RtFails(r) ==
     IF StartsWith(r.err, "build:") THEN {F("rt.build", r.err)}
-    ELSE IF ~Representable(r.fmt, r.orig, r.ascii)
+    ELSE IF ~Representable(r.fmt, r.orig, r.chars)
     THEN (IF StartsWith(r.err, "write:") THEN {} ELSE {F("rt.refuse", "the writer must reject the value")})
     ELSE IF StartsWith(r.err, "write:") THEN {F("rt.write", "no error")}
     ELSE UNION {
@@ -99,7 +99,22 @@ ImageFails(r) ==
                    \/ post[a.k] # [pre[a.k] EXCEPT !.parsed = TRUE] THEN {F("image.touch", a.k)} ELSE {},
                 ValueFails("image.scene", r.res.scene, BinScene(r.res.want_scene))}
 
+(* ---- the container's string encoding ------------------------------------- *)
+\* two scenes whose strings are all of one character class, saved with one encoding argument
+\* (or none), decoded by the harness (Latin-1) and read by the real reader
+ImgEncFails(r) ==
+    IF ~ImageWritable(r.enc, r.chars)
+    THEN (IF StartsWith(r.err, "write:UnicodeEncodeError") THEN {} ELSE {F("imgenc.refuse", "UnicodeEncodeError")})
+    ELSE IF StartsWith(r.err, "write:") THEN {F("imgenc.write", "no error")}
+    ELSE IF ~ImageRoundTrips(r.enc, r.chars) THEN {}
+    ELSE IF r.err # "" THEN {F("imgenc.read", "no error")}
+    ELSE UNION {
+        IF r.file_sounds # r.want_sounds THEN {F("imgenc.file_sounds", r.want_sounds)} ELSE {},
+        IF r.read_sounds # r.want_sounds THEN {F("imgenc.read_sounds", r.want_sounds)} ELSE {},
+        UNION {ValueFails("imgenc.scene", r.read_scenes[k], BinScene(r.want_scenes[k])) : k \in 1..Len(r.want_scenes)}}
+
 Fails(r) == CASE r.k = "rt" -> RtFails(r)
+              [] r.k = "imgenc" -> ImgEncFails(r)
               [] r.k = "sample" -> SampleFails(r)
               [] r.k = "image" -> ImageFails(r)
 
